@@ -175,3 +175,38 @@ func parseValid(it srcItem) (*ast.File, *token.FileSet, bool) {
 	}
 	return f, fset, true
 }
+
+var tokMutPool = []string{"(", ")", "[", "]", "{", "}", ",", ";", ":", ":=", "=", "=>", "<-", "...", "?", "!", "$", ".", "*", "&", "-", "+", "->", "<>", "if", "for", "func", "goto L", "L:", "range", "in", "var", "type", "struct", "interface", "map", "chan", "go", "defer", "return", "break L", "continue", "switch", "case x:", "default:", "select", "else", "import", "package p", "x", "1", `"s"`, "`r`", "'c'", "1r", "tpl`> `", "huh`> (\n`", "${", "\n", " "}
+
+// tokenMutate applies 1..k token-level mutations (delete / duplicate / swap / replace / insert from the whole token table).
+func tokenMutate(r *fw.Rand, src []byte, k int) []byte {
+	toks := scanTokens(src, true)
+	if len(toks) < 2 {
+		return src
+	}
+	pieces := make([]string, 0, len(toks)*2+1)
+	prev := 0
+	for _, t := range toks {
+		pieces = append(pieces, string(src[prev:t.off]), string(src[t.off:t.end]))
+		prev = t.end
+	}
+	pieces = append(pieces, string(src[prev:]))
+	// token i is pieces[2*i+1]
+	for n := r.Range(1, k); n > 0; n-- {
+		i := 2*r.Intn(len(toks)) + 1
+		switch r.Intn(5) {
+		case 0:
+			pieces[i] = ""
+		case 1:
+			pieces[i] = pieces[i] + " " + pieces[i]
+		case 2:
+			j := 2*r.Intn(len(toks)) + 1
+			pieces[i], pieces[j] = pieces[j], pieces[i]
+		case 3:
+			pieces[i] = fw.Pick(r, tokMutPool)
+		default:
+			pieces[i] = fw.Pick(r, tokMutPool) + " " + pieces[i]
+		}
+	}
+	return []byte(strings.Join(pieces, ""))
+}
